@@ -4,6 +4,7 @@ package app
 
 import (
 	"errors"
+	"github.com/Eyevinn/mp4ff/mp4"
 
 	m "github.com/Eyevinn/dash-mpd/mpd"
 )
@@ -104,4 +105,9 @@ func vStubDateTimeToSeconds(dt m.DateTime) (float64, error) {
 // vPubMS is the publishTime (Unix ms) the MPD carries for a publish time in seconds, as written by the real code.
 func vPubMS(sec float64) int {
 	return vDateTimeMS(publishTimeToDateTime(sec))
+}
+
+// vStubLoadInit: the init-segment skeleton the code dereferences (under symbolic execution; natively vLoadInit reads the real init segment)
+func vStubLoadInit(rep *RepData) {
+	rep.initSeg = &mp4.InitSegment{Moov: &mp4.MoovBox{Mvex: &mp4.MvexBox{Trex: &mp4.TrexBox{}}, Trak: &mp4.TrakBox{Tkhd: &mp4.TkhdBox{TrackID: 1}}}}
 }
